@@ -40,6 +40,7 @@ type Profile struct {
 	PJoiner                                                   int  // chance that not all ids are initial members
 	PSingle                                                   int  // extra chance of a 1-voter group
 	UniformFeatures                                           bool // all nodes share PreVote/CheckQuorum
+	UniformTicks                                              bool // all nodes share ElectionTick/HeartbeatTick
 	AllowZeroApplyQuota                                       bool
 	PSnapStored                                               int
 	MaxPayload                                                int
@@ -84,6 +85,8 @@ var Profiles = map[string]*Profile{
 		func(p *Profile) { p.PTinyLimits = 85; p.MaxPayload = 300 }),
 	"all": mkProfile("all", map[string]int{"proposeconf": 4, "compact": 3, "crash": 2, "restart": 6, "readindex": 3, "transfer": 2,
 		"dup": 4, "isolate": 2}, func(p *Profile) { p.AllowZeroApplyQuota = true }),
+	"live": mkProfile("live", map[string]int{"proposeconf": 5, "compact": 3, "crash": 3, "restart": 4, "readindex": 2, "transfer": 3,
+		"dup": 3, "isolate": 3, "drop": 6, "propose": 12, "unreachable": 2}, func(p *Profile) { p.AllowZeroApplyQuota = true; p.PTinyLimits = 40 }),
 }
 
 func pct(d Drawer, p int, label string) bool { return d.Int(0, 99, label) < p }
@@ -127,6 +130,17 @@ func DrawWorld(d Drawer, p *Profile) WorldOpts {
 	mixed := !p.UniformFeatures && pct(d, 25, "mixed")
 	for _, id := range w.IDs {
 		w.Nodes[id] = drawNodeOpts(d, p, id, uniPre, uniCQ, mixed)
+	}
+	if p.UniformTicks {
+		// every real deployment uses one ElectionTick/HeartbeatTick for the
+		// whole group; bounded liveness (C15) is only claimed for that.
+		first := w.Nodes[w.IDs[0]]
+		for _, id := range w.IDs[1:] {
+			o := w.Nodes[id]
+			o.ElectionTick, o.HeartbeatTick = first.ElectionTick, first.HeartbeatTick
+			o.Timeout = d.Int(o.ElectionTick, 2*o.ElectionTick-1, fmt.Sprintf("utimeout%d", id))
+			w.Nodes[id] = o
+		}
 	}
 	return w
 }
@@ -200,6 +214,11 @@ type CaseResult struct {
 // RunCase generates and runs one case. It never calls into testing; the
 // caller decides what to do with the result.
 func RunCase(d Drawer, cfg CaseConfig) (res CaseResult) {
+	if cfg.Liveness && !cfg.Profile.UniformTicks {
+		p2 := *cfg.Profile
+		p2.UniformTicks = true
+		cfg.Profile = &p2
+	}
 	w := DrawWorld(d, cfg.Profile)
 	mon := NewMonitors(cfg.On, cfg.Owned)
 	var s *Sim
